@@ -8,6 +8,7 @@ CLAUSES = {
     "values": "new particles carry the row's position and extra columns, in file-row order, with consecutive pids",
     "total": "total_particle_count equals the number of particles scheduled in [start, stop) (rows exactly at stop may or may not be counted)",
     "lonlat": "rows given by lon/lat start at grid.ll2xy(lon, lat)",
+    "typed-columns": "an integer extra column and the time-typed release_time variable arrive unchanged (release_time = the row's release time, per particle)",
 }
 BOUNDS = {
     "quick": "rows R<=3, release times on the dt lattice at steps -2..Nsteps+1 (nondecreasing, ties allowed), mult 0..2, window Nsteps<=3, continuous frequency 1..2 steps, forward and reversed, header in file or names in config",
@@ -67,17 +68,18 @@ def run(W, p):
     ys = [W.real(f"y{i}") for i in range(R)]
     zs = [W.real(f"z{i}", 0, 100) for i in range(R)]
     tags = [W.real(f"tag{i}") for i in range(R)]
+    farms = [W.int(f"farm{i}", 0, 10 ** 6) for i in range(R)]
     times = [W.dt(START + sgn * mc[i] * DT) for i in range(R)]
     tmp = W.scratch()
     path = tmp / "release.rls"
     if lonlat:
-        cols = ["release_time", "lon", "lat", "Z", "mult", "tag"]
+        cols = ["release_time", "lon", "lat", "Z", "mult", "tag", "farm"]
     else:
-        cols = ["release_time", "X", "Y", "Z", "mult", "tag"]
-    rows = [[times[i], xs[i], ys[i], zs[i], mult[i], tags[i]] for i in range(R)]
+        cols = ["release_time", "X", "Y", "Z", "mult", "tag", "farm"]
+    rows = [[times[i], xs[i], ys[i], zs[i], mult[i], tags[i], farms[i]] for i in range(R)]
     W.table(path, cols, rows, header=not p["names"])
     timer = tk.TimeKeeper(start=W.dt(START), stop=W.dt(START + sgn * N * DT), dt=DT, time_reversal=rev)
-    S = st.State(instance_variables=dict(tag=float))
+    S = st.State(instance_variables=dict(tag=float, farm=int), particle_variables=dict(release_time="time"))
     mods = dict(time=timer, grid=_AffineGrid(W) if lonlat else None, state=S)
     kw = {}
     if cont:
@@ -125,6 +127,14 @@ def run(W, p):
                 ex, ey = (((xs[i] - 4) / 2, (ys[i] - 60) * 4) if lonlat else (xs[i], ys[i]))
                 conds += [W.eq(X[q], ex), W.eq(Y[q], ey), W.eq(Z[q], zs[i]), W.eq(T[q], tags[i]), W.eq(P[q], npid + q)]
             W.prove(W.all(conds), "lonlat" if lonlat else "values", dict(step=s, mc=mc, mult=mult))
+            FA = W.tolist(S.variables["farm"])[n0:]
+            RT = W.tolist(S.variables["release_time"])
+            tconds = [len(RT) == n0 + got_n]
+            for q, i in enumerate(exp):
+                tconds.append(W.eq(FA[q], farms[i]))
+                if n0 + q < len(RT):
+                    tconds.append(W.eq(W.sec_of(RT[n0 + q]), START + sgn * s * DT))
+            W.prove(W.all(tconds), "typed-columns", dict(step=s, mc=mc, mult=mult))
         npid += got_n
     if not cont:
         lo = sum(mult[i] for i in upto_stop if mc[i] < N)
